@@ -57,10 +57,22 @@ def lookup(m):
     return d
 
 
-def api_objects(m, order=None, wrap=None):
+def api_objects(m, order=None, wrap=None, share=False):
     """(pair Potential list, EAMPotential list[, dipoles, quadrupoles]) through the Python API;
     element order = `order` or m['elements'] restricted to the element set"""
     b = build_api.Builder(m["env"])
+    if share:
+        # one Python callable per distinct definition, used wherever that definition occurs (a user who writes
+        # f = potentialforms.bornmayer(...) once and passes f as embedding function of one element and density of another)
+        built = {}
+        plain = b.potdef
+
+        def shared_potdef(pd):
+            key = model.canon(pd)
+            if key not in built:
+                built[key] = plain(pd)
+            return built[key]
+        b.potdef = shared_potdef
     els = order or [e for e in m["elements"] if e in element_set(m)]
     lk = lookup(m)
     zero = ap.potentialforms.zero()
